@@ -372,3 +372,15 @@ def complex_hash_ref(hre, him):
 def rid(t):
     """compact identity of a raw real for case idents (hex mantissa: repr of huge ints in decimal is quadratic)"""
     return (t[0], '%x' % t[1], t[2])
+
+
+def iroot(N, n):
+    """floor of the n-th root of a non-negative int (integer Newton iteration from above)"""
+    if N < 2 or n == 1:
+        return N
+    x = 1 << -(-N.bit_length() // n)
+    while True:
+        y = ((n - 1) * x + N // x ** (n - 1)) // n
+        if y >= x:
+            return x
+        x = y
